@@ -66,6 +66,10 @@ def run(ctx):
     from .. import rules_base as RB
     ctx.rule('R17.B', 'base model: token-type containment and token normal form behave as the protocol evaluation assumes', floor=1)
     RB.check_base_model(ctx, 'R17.B', parts=('contains', 'flags'))
+    # the level protocol lives in one StatementSplitter object per script: the entry points must give the whole script to one run
+    from .. import rules_stack as RK
+    ctx.rule('R17.6', 'one splitter pass sees the whole script: pipeline shape of parse/parsestream/FilterStack.run', floor=10)
+    RK.check_parse_pipeline(ctx, 'R17.6')
 
 
 def transfer_table(ctx):
